@@ -41,8 +41,31 @@ Inductive kind :=
 
 (* wlinks: file a has, under /D, a link node L<b> to F<b>:/D (the path exists in every valid file);
    wdlinks: file a has a link node X<b> to F<b>:/Nope -- the FILE may exist, the stored PATH never does (dangling path) *)
-Record world := mkW { kinds : list kind; wlinks : list (nat * nat); wdlinks : list (nat * nat) }.
+(* the per-file attributes ADF keeps in ADF_file[i] next to the bookkeeping: old_version (1 = the "ADF Database Version A"
+   layout: ASCII-hex disk pointers, 32-bit dimensions), format and os_size (the two letters at header bytes 100 / 101),
+   link_separator, version_update[0] != 0.  Letters are their ASCII codes. *)
+Record fattr := mkfattr { a_old : bool; a_fmt : nat; a_os : nat; a_sep : nat; a_vupd : bool }.
+(* what ADFI_open_file assigns before it looks at the file: version_update[0] = 0; format = os_size = UNDEFINED_FORMAT (0);
+   link_separator = '>' (62); old_version = 0 *)
+Definition init_attr : fattr := mkfattr false 0 0 62 false.
+(* a slot of the calloc'ed table that has never been used *)
+Definition zero_attr : fattr := mkfattr false 0 0 0 false.
+
+(* how a valid ADF file was created (format argument of ADF_Database_Open "NEW"); what its header says on this machine
+   (little endian, 64 bit): NATIVE 'L' 'B', IEEE_BIG 'B' 'L', IEEE_LITTLE 'L' 'L', LEGACY 'L' 'B' with what[25] = 'A' *)
+Inductive layout := LNative | LBig | LLittle | LLegacy.
+Definition layout_attr (l : layout) : fattr :=
+  match l with
+  | LNative => mkfattr false 76 66 62 false
+  | LBig => mkfattr false 66 76 62 false
+  | LLittle => mkfattr false 76 76 62 false
+  | LLegacy => mkfattr true 76 66 62 false
+  end.
+
+Record world := mkW { kinds : list kind; wlinks : list (nat * nat); wdlinks : list (nat * nat); layouts : list layout }.
 Definition kind_of (w : world) (n : nat) : kind := nth n (kinds w) KMissing.
+(* the attributes a file's OWN header determines *)
+Definition file_attr (w : world) (n : nat) : fattr := layout_attr (nth n (layouts w) LNative).
 Definition has_link (w : world) (a b : nat) : bool :=
   existsb (fun p => Nat.eqb (fst p) a && Nat.eqb (snd p) b) (wlinks w).
 Definition has_dlink (w : world) (a b : nat) : bool :=
@@ -55,11 +78,14 @@ Record slot := mkslot { in_use : nat; fd_open : bool; fname : option nat; links 
 Definition free_slot : slot := mkslot 0 false None [].
 (* tab = ADF_file[0 .. maximum_files) ; ledger = names of the descriptors currently open ;
    lcache = the one-entry cache of ADFI_chase_link (last_link_ID, last_link_LID): Some (c, n, li) = "the link node L<n> of
-   the file in slot c resolves into the file in slot li" *)
-Record adf := mkadf { tab : list slot; ledger : list nat; lcache : option (nat * nat * nat) }.
+   the file in slot c resolves into the file in slot li" ;
+   amem = the attribute bytes of every entry of ADF_file[] (same length as tab), WHETHER THE ENTRY IS IN USE OR NOT: a close
+   does not touch them, so a closed entry keeps the attributes of its last occupant until ADFI_open_file reassigns them *)
+Record adf := mkadf { tab : list slot; ledger : list nat; lcache : option (nat * nat * nat); amem : list fattr }.
+Definition attr_at (a : adf) (i : nat) : fattr := nth i (amem a) zero_attr.
 Definition slot_at (a : adf) (i : nat) : slot := nth i (tab a) free_slot.
-Definition set_slot (a : adf) (i : nat) (s : slot) : adf := mkadf (upd (tab a) i s) (ledger a) (lcache a).
-Definition set_cache (a : adf) (c : option (nat * nat * nat)) : adf := mkadf (tab a) (ledger a) c.
+Definition set_slot (a : adf) (i : nat) (s : slot) : adf := mkadf (upd (tab a) i s) (ledger a) (lcache a) (amem a).
+Definition set_cache (a : adf) (c : option (nat * nat * nat)) : adf := mkadf (tab a) (ledger a) c (amem a).
 Definition set_in_use (a : adf) (i n : nat) : adf :=
   let s := slot_at a i in set_slot a i (mkslot n (fd_open s) (fname s) (links s)).
 
@@ -75,15 +101,30 @@ Definition FILE_INDEX_OUT_OF_RANGE : nat := 10.
 Fixpoint find_free (t : list slot) : nat :=
   match t with [] => 0 | s :: r => if Nat.eqb (in_use s) 0 then 0 else S (find_free r) end.
 
+(* the assignments ADFI_open_file makes to the entry it has chosen -- EVERY attribute is assigned, whatever the entry held *)
+Definition reset_attr (_ : fattr) : fattr := init_attr.
+(* "if (102 == READ(f_ret, header_data, 102)) { if (header_data[25] != 'B') old_version = 1; format = header_data[100];
+   os_size = header_data[101]; }"  -- old_version is only ever SET here, never cleared: the reset above is what separates
+   the new occupant from the previous one.  hdr = what the file's header says (None: shorter than 102 bytes) *)
+Definition read_header (hdr : option fattr) (x : fattr) : fattr :=
+  match hdr with
+  | Some h => mkfattr (a_old h || a_old x) (a_fmt h) (a_os h) (a_sep x) (a_vupd x)
+  | None => x
+  end.
+
 (* ADFI_open_file; os_ok = the open() system call succeeds.  Returns the new table and the index (None = error). *)
-Definition adfi_open_file (a : adf) (n : nat) (os_ok : bool) : adf * option nat :=
+Definition adfi_open_file (a : adf) (n : nat) (hdr : option fattr) (os_ok : bool) : adf * option nat :=
   let i := find_free (tab a) in
-  let t1 := if i <? length (tab a) then tab a else tab a ++ repeat free_slot ADF_FILE_INC in
+  let grow := negb (i <? length (tab a)) in
+  let t1 := if grow then tab a ++ repeat free_slot ADF_FILE_INC else tab a in
+  let m1 := if grow then amem a ++ repeat zero_attr ADF_FILE_INC else amem a in          (* calloc + memcpy *)
   (* the first table is being allocated: ADFI_stack_control(INIT_STK) also forgets the link cache *)
   let c1 := match tab a with [] => None | _ => lcache a end in
-  if MAXIMUM_FILES <? i then (mkadf t1 (ledger a) c1, None)                       (* TOO_MANY_ADF_FILES_OPENED *)
-  else if os_ok then (mkadf (upd t1 i (mkslot 1 true (Some n) [])) (n :: ledger a) c1, Some i)
-  else (mkadf (upd t1 i free_slot) (ledger a) c1, None).                          (* Error_Exit *)
+  if MAXIMUM_FILES <? i then (mkadf t1 (ledger a) c1 m1, None)                    (* TOO_MANY_ADF_FILES_OPENED *)
+  else
+    let at0 := reset_attr (nth i m1 zero_attr) in
+    if os_ok then (mkadf (upd t1 i (mkslot 1 true (Some n) [])) (n :: ledger a) c1 (upd m1 i (read_header hdr at0)), Some i)
+    else (mkadf (upd t1 i free_slot) (ledger a) c1 (upd m1 i at0), None).            (* Error_Exit *)
 
 (* ---- ADFI_close_file as a stack machine ---------------------------------------------------------------- *)
 Inductive variant := Old | Cur.
@@ -96,11 +137,11 @@ Definition really_close (a : adf) (i : nat) : adf :=
   let s := slot_at a i in
   mkadf (upd (tab a) i free_slot)
         (if fd_open s then match fname s with Some n => rem1 n (ledger a) | None => ledger a end else ledger a)
-        None.
+        None (amem a).
 
 (* "if no more files open, free data structure": free (ADF_file); maximum_files = 0; *)
 Definition free_if_idle (a : adf) : adf :=
-  if forallb (fun s => Nat.eqb (in_use s) 0) (tab a) then mkadf [] (ledger a) (lcache a) else a.
+  if forallb (fun s => Nat.eqb (in_use s) 0) (tab a) then mkadf [] (ledger a) (lcache a) [] else a.
 
 Definition cm_step (v : variant) (m : cm) : cm + (adf * nat) :=
   let a := cm_a m in
@@ -144,7 +185,7 @@ Definition adf_database_open (v : variant) (fuel : nat) (w : world) (a : adf) (n
   : option (adf * option nat) :=
   match kind_of w n with
   | KMissing => Some (a, None)                                   (* ACCESS fails: REQUESTED_OLD_FILE_NOT_FOUND *)
-  | k => let '(a1, oi) := adfi_open_file a n (os_open_ok k rw) in
+  | k => let '(a1, oi) := adfi_open_file a n (if header_ok k then Some (file_attr w n) else None) (os_open_ok k rw) in
          match oi with
          | None => Some (a1, None)
          | Some i => if header_ok k then Some (a1, Some i)
@@ -224,7 +265,7 @@ Fixpoint walk (v : variant) (fuel : nat) (w : world) (a : adf) (cur : nat) (chai
 
 (* ------------------------------------------------------------------------------------------------ cgio iolist *)
 Record io := mkio { io_adf : adf; iol : list (option nat); nopen : nat }.
-Definition io_init : io := mkio (mkadf [] [] None) [] 0.
+Definition io_init : io := mkio (mkadf [] [] None []) [] 0.
 
 Inductive cres := ROk | RBadCgio | RFileType | RAdf (e : nat).
 
